@@ -2,6 +2,11 @@
 import AsmjitVerif.Spec.Reuse
 namespace AsmjitVerif.Reuse
 
+/-- lifecycle and configuration operations (everything except code generation proper) -/
+def Op.lifecycle : Op → Bool
+  | .world _ | .init _ | .reset _ | .reinit | .attach _ | .detach _ | .hlogger _ | .elogger _ _ | .diag _ _ | .dump => true
+  | _ => false
+
 theorem updAt_length {α : Type} (l : List α) (i : Nat) (f : α → α) : (updAt l i f).length = l.length := by
   induction l generalizing i with
   | nil => cases i <;> rfl
@@ -26,34 +31,34 @@ theorem updAt_map {α β : Type} (g : α → β) (f : α → α) (f' : β → β
   | cons a r ih => cases i <;> simp [updAt, hf, ih]
 
 theorem Emitter.obs_obs (e : Emitter) : e.obs.obs = e.obs := by
-  cases e with | mk kind _ _ _ _ _ _ _ _ _ _ _ _ _ _ _ _ _ _ _ _ _ => cases kind <;> rfl
+  cases e with | mk kind _ _ _ _ _ _ _ _ _ _ _ _ _ _ _ _ _ _ _ _ _ _ => cases kind <;> rfl
 theorem Holder.obs_obs (h : Holder) : h.obs.obs = h.obs := rfl
 
 theorem Emitter.obs_kind (e : Emitter) : e.obs.kind = e.kind := by
-  cases e with | mk kind _ _ _ _ _ _ _ _ _ _ _ _ _ _ _ _ _ _ _ _ _ => cases kind <;> rfl
+  cases e with | mk kind _ _ _ _ _ _ _ _ _ _ _ _ _ _ _ _ _ _ _ _ _ _ => cases kind <;> rfl
 theorem Emitter.obs_code (e : Emitter) : e.obs.code = e.code := by
-  cases e with | mk kind _ _ _ _ _ _ _ _ _ _ _ _ _ _ _ _ _ _ _ _ _ => cases kind <;> rfl
+  cases e with | mk kind _ _ _ _ _ _ _ _ _ _ _ _ _ _ _ _ _ _ _ _ _ _ => cases kind <;> rfl
 
 /-! ### emitter functions respect the observation: `(f e).obs = (f e.obs).obs` -/
 
 theorem onDetach_resp (e : Emitter) : e.onDetach.obs = e.obs.onDetach.obs := by
-  cases e with | mk kind _ _ _ _ _ _ _ _ _ _ _ _ _ _ _ _ _ _ _ _ _ =>
+  cases e with | mk kind _ _ _ _ _ _ _ _ _ _ _ _ _ _ _ _ _ _ _ _ _ _ =>
   cases kind <;> simp [Emitter.onDetach, Emitter.obs]
 
 theorem onReinit_resp (e : Emitter) : e.onReinit.obs = e.obs.onReinit.obs := by
-  cases e with | mk kind _ _ _ _ _ _ _ _ _ _ _ _ _ _ _ _ _ _ _ _ _ =>
+  cases e with | mk kind _ _ _ _ _ _ _ _ _ _ _ _ _ _ _ _ _ _ _ _ _ _ =>
   cases kind <;> simp [Emitter.onReinit, Emitter.obs]
 
 theorem settingsUpdated_obs (lg : Bool) (e : Emitter) : (e.settingsUpdated lg).obs = e.obs := by
-  cases e with | mk kind _ _ _ _ _ _ _ _ _ _ _ _ _ _ _ _ _ _ _ _ _ =>
+  cases e with | mk kind _ _ _ _ _ _ _ _ _ _ _ _ _ _ _ _ _ _ _ _ _ _ =>
   cases kind <;> simp [Emitter.settingsUpdated, Emitter.updateForced, Emitter.obs]
 
 theorem updateForced_obs (e : Emitter) : e.updateForced.obs = e.obs := by
-  cases e with | mk kind _ _ _ _ _ _ _ _ _ _ _ _ _ _ _ _ _ _ _ _ _ =>
+  cases e with | mk kind _ _ _ _ _ _ _ _ _ _ _ _ _ _ _ _ _ _ _ _ _ _ =>
   cases kind <;> simp [Emitter.updateForced, Emitter.obs]
 
 theorem onAttach_resp (h : Holder) (e : Emitter) : (e.onAttach h).obs = (e.obs.onAttach h.obs).obs := by
-  cases e with | mk kind _ _ _ _ _ _ _ _ _ _ _ _ _ _ _ _ _ _ _ _ _ =>
+  cases e with | mk kind _ _ _ _ _ _ _ _ _ _ _ _ _ _ _ _ _ _ _ _ _ _ =>
   cases kind <;> simp [Emitter.onAttach, Emitter.settingsUpdated, Emitter.updateForced, Emitter.obs, Holder.obs]
 
 /-- the attachment-list walk maps observationally equal emitter lists to observationally equal lists -/
